@@ -155,7 +155,7 @@ def run(ctx: Ctx) -> None:
         ctx.obligation("translate sort_errors", False, str(e))
         gen = None
     if gen is not None:
-        gens, order = {"GenSortKey": gen}, ["GenSortKey", "C11"]
+        gens, order = {"GenSortKey": gen}, ["GenSortKey", "C11", "C11State"]
         # the per-path ignore test iterates a set: translated from source and proved independent of the iteration order (Props/C12/C12Amend.v)
         try:
             from ..translate.amend import translate as translate_amend
@@ -232,9 +232,9 @@ def run(ctx: Ctx) -> None:
     finally:
         shutil.rmtree(td, ignore_errors=True)
     ctx.resolve_broken({"translate is_ignored_via_amend (iteration over the set settings.ignore)": "history:", "amend_order_irrelevant": "history:", "amend_translated_is_the_model": "history:",
-                        "process_state_inventory": "history:", "sort_perm_invariant": ("file-order-matters", "history:"), "partition_invariant": ("grouping-matters", "history:"),
-                        "key_order_documented": ("not-sorted", "history:"), "sorted_output": ("not-sorted", "history:"), "key_total_on_distinct": ("not-sorted", "history:"),
-                        "report_example": ("not-sorted", "history:"), "translate sort_errors": ("not-sorted", "history:")}, b.first_error if b else "")
+                        "process_state_inventory": "history:", "sort_perm_invariant": "file-order-matters", "partition_invariant": "grouping-matters",
+                        "key_order_documented": "not-sorted", "sorted_output": "not-sorted", "key_total_on_distinct": "not-sorted",
+                        "report_example": "not-sorted", "translate sort_errors": "not-sorted"}, b.first_error if b else "")
 
 
 def histories(ctx: Ctx, td: str, files: list[str]) -> None:
